@@ -210,3 +210,19 @@ def c26_atleast_tail(case, v=None):
         return False
     span = case["TB"] if (v or {}).get("kind") == "scope_block" else case["T"]
     return span >= c["k"] + 2
+
+
+# C05 -----------------------------------------------------------------------------------------------
+def c05_sources_and_partial_round(case, v=None):
+    """A crossed within-trial derived factor has a basic source outside the crossing (so crossing combinations can
+    have different numbers of completions) and the sequence contains a leftover round or a weighted crossing (so
+    RandomGen draws the completions per trial, with a range that depends on the permutation drawn before)."""
+    sp = _spec(case)
+    if v is not None and not (v.get("leftover", 0) > 0 or v.get("weighted")):
+        return False
+    F = sp["factors"]
+    for cr in S.tree_crossings(sp["block"]):
+        for n in cr:
+            if F[n]["kind"] == "derived" and not S.is_complex(sp, n) and (S.basic_roots(sp, n) - set(cr)):
+                return True
+    return False
